@@ -12,6 +12,9 @@ use prefix_trie::map::Entry;
 use prefix_trie::PrefixMap;
 use std::panic::{catch_unwind, AssertUnwindSafe};
 
+/// Properties whose oracles describe the state of a map (as opposed to one accessor's behaviour).
+pub const STATE_PROPS: [&str; 7] = ["C01", "C03", "C04", "C15", "C16", "C20", "HARNESS"];
+
 fn is_injected(e: &Box<dyn std::any::Any + Send>) -> bool {
     e.downcast_ref::<InjectedPanic>().is_some()
 }
@@ -34,10 +37,18 @@ fn check_after<P: TP>(map: PrefixMap<P, u64>, expect: Model, canonical: bool, dr
     side.canonical = canonical;
     side.drift = drift;
     side.peak_nodes = usize::MAX / 4;
-    let tag = |f: crate::env::Fail| crate::env::Fail {
-        prop: "C20",
-        sig: format!("C20:after-callback-panic:{what}:{}", f.sig),
-        msg: format!("after a panic injected into {what}: {}", f.msg),
+    // "The map remains valid" is a statement about its state: entries, count, shape, arena, iteration,
+    // termination. A failing oracle of another property (an accessor that is wrong on every map, panic
+    // or not) is passed on unchanged, i.e. as a foreign failure that ends the case without an alarm.
+    let tag = |f: crate::env::Fail| {
+        if !STATE_PROPS.contains(&f.prop) {
+            return f;
+        }
+        crate::env::Fail {
+            prop: "C20",
+            sig: format!("C20:after-callback-panic:{what}:{}", f.sig),
+            msg: format!("after a panic injected into {what}: {}", f.msg),
+        }
     };
     let s = shape_of(&side.map).map_err(tag)?;
     if let Err(e) = shape_wellformed(&s, P::W) {
